@@ -245,7 +245,7 @@ def oracle_units(ctx, where, clsname, us, ft, wf=True, marks=(), expected_units=
 def run_datatypes(ctx):
     rng = ctx.rng
     cases, info, env_objs = [], [], []
-    for i in range(ctx.n(2600, 30000)):
+    for i in range(ctx.n(1800, 30000)):
         kind = KINDS[i % len(KINDS)]
         obj, term, wf, marks, kw, exp = make_instance(rng, kind)
         us, ft = observe(obj, kw)
@@ -253,7 +253,7 @@ def run_datatypes(ctx):
         oracle_units(ctx, f"datatypes:{kind}", type(obj).__name__, us, ft, wf, marks, exp, {"coq_term": term[:3000]})
         cases.append(pair(term, coq_list([pair(coq_Z(n), coq_str(t)) for n, t in us]), coq_str(ft)))
         info.append((kind, term))
-        if len(env_objs) < 140:
+        if len(env_objs) < 100:
             env_objs.append((obj, kw, term[:400]))
     pre = "From Coq Require Import ZArith List.\nFrom S2T Require Import Lib.PyStr C03.Lib C03.Model C03.Corr.\nImport ListNotations.\n"
     ok, failing, log = coq_eval_shards(ctx, "dt", pre, "corr_case", cases, shard=400,
@@ -273,7 +273,7 @@ def run_datatypes(ctx):
         parts = [rtext(rng, None, 3) for _ in range(rng.randint(0, 4))]
         sc.append(pair(coq_str(x), coq_str(x.strip()), cstrs(parts), coq_str("\n".join(parts))))
     for c in range(0x3100):  # every BMP code point below U+3100 as sole wrapping character
-        if c % (1 if ctx.tier == "thorough" else 7) == 0 or chr(c).isspace():
+        if c % (1 if ctx.tier == "thorough" else 11) == 0 or chr(c).isspace():
             x = chr(c) + "a" + chr(c)
             sc.append(pair(coq_str(x), coq_str(x.strip()), "[]", coq_str("")))
     ok, failing, log = coq_eval_shards(ctx, "strip", pre, "strip_case", sc, shard=800, ty="str * str * list str * str")
@@ -1776,7 +1776,7 @@ def run_end_to_end(ctx):
     import common
     per_kind, sample = {}, []
     for idx, h in enumerate(history):
-        if per_kind.setdefault(h[0], 0) < 12:
+        if per_kind.setdefault(h[0], 0) < 8:
             per_kind[h[0]] += 1
             sample.append(idx)
     common.env_sweep(ctx, "generated-documents", lambda i_: [observe(c_) for c_ in history[i_][1]()], sample,
